@@ -13,7 +13,8 @@ purpose on the last word of a set, the last word of the burst and the configurat
 random times.  Detectors: the input is a list of *episodes* separated by a fixed separator (a lone COM word followed
 by a garbage word and idle cycles, which ends every run of sets for any reading of the statement).  Episodes: clean
 runs of N-1, N, N+1, 2N-1, 2N, 2N+1, 3N, random numbers of sets; one word corrupted in one bit of data or ctrl at a
-chosen set / word (first set, N-th set, last word of a set ...); truncated sets; a duplicated first word; garbage words
+chosen set / word (first set, N-th set, last word of a set ...); single-bit sweeps (N-1 good sets followed by a set
+with one random flipped data or ctrl bit, repeated); truncated sets; a duplicated first word; garbage words
 between sets (directly, or after an idle cycle); sets of another type in between (TS1 <-> TS2 <-> inverted TS1 <-> TSEQ);
 random words and near-miss words; configuration bits constant, changing per run and changing per set.  Idle cycles
 (valid = 0) are inserted with five profiles (none, sparse, heavy, only between sets, only inside sets) and carry
@@ -44,7 +45,7 @@ bit changes while the configuration word is stalled (counted as unjudged), laten
 from rv.sim import Bench
 
 PROPERTY = "C43"
-CASES = {"quick": 256, "thorough": 4000}
+CASES = {"quick": 224, "thorough": 3360}
 TIMEOUT = {"quick": 3600, "thorough": 8 * 3600}      # generous: the watchdog only turns a hang into "inconclusive"
 RULE = ("case = wrapper with 2 TSEmitters, 3 TSBurstDetectors (random set type / threshold) and (1 in 4) a TSTransceiver; emitters: "
         "start/ready/request scripts of ~1500 cycles; detectors: ~25 episodes (clean runs around multiples of N, one corrupted word, "
@@ -54,7 +55,7 @@ REQUIRED_BINS = [
     "det_tseq", "det_ts1", "det_its1", "det_ts2", "det_n1", "det_n2or3", "det_n8", "det_n32", "xcvr_case",
     "ep_clean_exact_n", "ep_clean_n_minus_1", "ep_clean_n_plus_1", "ep_clean_multi", "ep_corrupt_data_bit", "ep_corrupt_ctrl_bit",
     "ep_corrupt_last_word", "ep_corrupt_first_word", "ep_truncated", "ep_dup_first_word", "ep_garbage_direct", "ep_garbage_after_idle",
-    "ep_foreign_sets", "ep_random_words", "ep_cfg_per_set",
+    "ep_foreign_sets", "ep_random_words", "ep_cfg_per_set", "ep_bit_sweep",
     "idle_none", "idle_sparse", "idle_heavy", "idle_between_sets", "idle_inside_sets", "idle_payload_looks_valid",
     "run_broken_just_before_report", "cfg_hot_reset", "cfg_loopback", "cfg_no_scrambling", "cfg_all_zero",
     "emit_tseq", "emit_ts1", "emit_its1", "emit_ts2", "emit_n1", "emit_n2or3", "emit_n16",
@@ -169,7 +170,7 @@ class Stream:
             self.idle(rng.randint(1, 5))
 
     def emit_set(self, cfg=0, upto=None, corrupt=None, kind=None):
-        """One set (or its first `upto` words); corrupt = (word, 'data'|'ctrl')."""
+        """One set (or its first `upto` words); corrupt = (word, 'data'|'ctrl'[, bit])."""
         kind = kind or self.kind
         words = SETS[kind]
         for pos in range(len(words) if upto is None else upto):
@@ -179,12 +180,12 @@ class Stream:
                 d, c = words[pos]
             if corrupt and corrupt[0] == pos:
                 if corrupt[1] == "ctrl":
-                    c ^= 1 << self.rng.randrange(4)
+                    c ^= 1 << (corrupt[2] if len(corrupt) > 2 else self.rng.randrange(4))
                 else:
                     lo = 16 if (self.with_cfg and pos == 1) else 0
-                    bit = self.rng.randrange(lo, 32)
-                    if self.with_cfg and pos == 1 and 8 <= bit < 16:
-                        bit = 16
+                    bit = corrupt[2] if len(corrupt) > 2 else self.rng.randrange(lo, 32)
+                    if self.with_cfg and pos == 1 and bit < 16:
+                        bit += 16                    # symbols 4/5 of a set with configuration field are not set contents
                     d ^= 1 << bit
             self.want = pos if kind == self.kind else None
             if pos:
@@ -249,7 +250,7 @@ class Stream:
         elif r < 0.50:                                       # one corrupted word
             k = rng.choice([n + 1, 2 * n, 2 * n + 1, n + rng.randint(0, n)]) if not big else rng.choice([n + 1, n + 3])
             j = rng.choice([0, n - 1, n - 1, k - 1, rng.randrange(k)])
-            w = rng.choice([0, nwords - 1, nwords - 1, rng.randrange(nwords)])
+            w = rng.choice([0, 1, nwords - 1, nwords - 1, rng.randrange(nwords)])
             how = rng.choice(["data", "data", "ctrl"])
             self.tag("ep_corrupt_%s_bit" % how)
             if w == nwords - 1:
@@ -302,7 +303,18 @@ class Stream:
             self.run(k2)
             if k1 == n - 1:
                 self.tag("run_broken_just_before_report")
-        elif r < 0.92:                                       # sets of another type in between
+        elif r < 0.88:                                       # single-bit sweep: N-1 good sets, then a set with one flipped bit
+            for _ in range(2 if big else rng.randint(4, 8)):
+                self.run(n - 1)
+                self.maybe_idle("between")
+                w = rng.randrange(nwords)
+                if rng.random() < 0.2:
+                    self.emit_set(cfg=self.cfg, corrupt=(w, "ctrl", rng.randrange(4)))
+                else:
+                    self.emit_set(cfg=self.cfg, corrupt=(w, "data", rng.randrange(32)))
+                self.maybe_idle("between")
+            self.tag("ep_bit_sweep")
+        elif r < 0.94:                                       # sets of another type in between
             other = rng.choice([k for k in SETS if k != self.kind])
             k1 = rng.choice([n - 1, rng.randint(1, n)]) if not big else rng.randint(1, 3)
             self.run(k1)
